@@ -35,6 +35,16 @@ def gen(rng, tier):
         for hi in range(4):
             sk = bytearray(rbytes(rng, 32)); sk[0] = (sk[0] & 0xf8) | lo; sk[31] = (sk[31] & 0x3f) | (hi << 6)
             cs.append(Case("scalarmult_base %s" % hx(bytes(sk)), cls="from_secret_key/clamp-bits", expect="ok " + hx(refs.x25519_base(bytes(sk)))))
+    # degenerate secret keys (an empty / wiped container, all ones, the other members of their clamping classes, the group order):
+    # the public key is still clamp(sk)·B — 2^254·B for the all-zero key
+    for sk in [bytes(32), b"\xff" * 32, b"\x07" + bytes(30) + b"\x80", bytes(31) + b"\x40", b"\x01" + bytes(31), bytes(31) + b"\x01",
+               refs.ED_L.to_bytes(32, "little"), (refs.ED_L - 1).to_bytes(32, "little"), b"\xf8" + b"\xff" * 30 + b"\x7f"]:
+        cs.append(Case("scalarmult_base %s" % hx(sk), cls="from_secret_key/degenerate", expect="ok " + hx(refs.x25519_base(sk))))
+    # degenerate seeds: empty, one zero byte, 32 zero bytes, 32 × 0xff
+    for seed in [b"", b"\x00", bytes(32), b"\xff" * 32, bytes(64)]:
+        cs.append(Case("box_seed_keypair %s" % hx(seed), cls="box_seed/degenerate", meta={"no_spec": len(seed) != 32}))
+        if len(seed) == 32:
+            cs.append(Case("sign_seed_keypair %s" % hx(seed), cls="sign_seed/degenerate"))
     return cs
 
 
